@@ -150,6 +150,7 @@ func (self *VM) GetGlobals() map[string]value.Value {
 }
 
 func (self *VM) spawnCore() *Core {
+	verifSchedPoint("spawn-core")
 	self.Cores.Lock.Lock()
 	defer self.Cores.Lock.Unlock()
 
@@ -425,7 +426,9 @@ func (self *VM) spawnCoreInternal(
 	}
 
 	go func() {
+		verifSchedPoint("core-start")
 		(*core).Run(toBeInvoked, debuggerOutput, debuggerResume)
+		verifSchedPoint("core-exit")
 
 		if onFinish != nil {
 			onFinish <- struct{}{}
@@ -448,6 +451,7 @@ func (self *VM) WaitNonConsuming() {
 
 func (self *VM) Wait() (coreNum uint, i *value.VmInterrupt) {
 	for {
+		verifSchedPoint("wait-pass")
 		self.Cores.Lock.RLock()
 		for _, core := range self.Cores.Cores {
 			// fmt.Printf("checking core: %d | %v\n", core.Corenum, time.Now())
@@ -466,6 +470,7 @@ func (self *VM) Wait() (coreNum uint, i *value.VmInterrupt) {
 					}
 
 					self.Cores.Lock.RUnlock()
+					verifSchedPoint("wait-reap")
 
 					self.Cores.Lock.Lock()
 					self.Cores.Cores = newCores
